@@ -566,6 +566,36 @@ var c12LookAlikes = [][][]string{
 	{{"note", ""}}, {{"note"}}, {{"note", "", ""}},
 }
 
+// c12GenCrowd: one crowded class - 13..40 ranges of one key and qualifier over a few shared coordinates (equal spans
+// that differ only in their partial ends, abutting fragments, repeats, either strand): the sizes at which a sort is
+// no longer stable and a pairwise merge has many candidates.
+func c12GenCrowd(t *rapid.T) c12Case {
+	L := rapid.IntRange(8, 24).Draw(t, "L")
+	hot := []int{0, L / 3, L / 2, L}
+	n := rapid.IntRange(13, 40).Draw(t, "ncrowd")
+	c := c12Case{Mode: "table", L: L}
+	for i := 0; i < n; i++ {
+		key, q := "repeat_region", []string{"note", "r"}
+		if rapid.IntRange(0, 9).Draw(t, "stranger") == 0 {
+			key, q = rapid.SampledFrom([]string{"gene", "source"}).Draw(t, "key"), []string{"gene", "a"}
+		}
+		s0 := rapid.SampledFrom(hot[:len(hot)-1]).Draw(t, "s")
+		var ends []int
+		for _, h := range hot {
+			if h > s0 {
+				ends = append(ends, h)
+			}
+		}
+		e0 := rapid.SampledFrom(ends).Draw(t, "e")
+		l := lprg(s0, e0, rapid.Bool().Draw(t, "p5"), rapid.Bool().Draw(t, "p3"))
+		if rapid.IntRange(0, 3).Draw(t, "co") == 0 {
+			l = lco(l)
+		}
+		c.Feats = append(c.Feats, Feat{Key: key, Loc: l, Quals: [][]string{q}})
+	}
+	return c
+}
+
 // c12GenCli: a cut-and-concatenated record among 0..4 other records, handed to `gts repair` as one stream.
 func c12GenCli(t *rapid.T) c12Case {
 	c := c12Gen(t)
@@ -585,6 +615,10 @@ func TestC12(t *testing.T) {
 	if t.Failed() {
 		return
 	}
+	rapidPart(t, c12Prop, st, "rapid-crowded", pick(12000, 80000), c12GenCrowd)
+	if t.Failed() {
+		return
+	}
 	rapidPart(t, c12Prop, st, "rapid-cli", pick(200, 3000), c12GenCli)
 	if t.Failed() {
 		return
@@ -593,6 +627,37 @@ func TestC12(t *testing.T) {
 	if t.Failed() {
 		return
 	}
+	// crowded twins: a class of 14..45 members (beyond the size up to which sort routines are stable) that holds two
+	// ranges the location order cannot tell apart (same span, one 5'-partial, one 3'-partial), a fragment that abuts
+	// one of them, a pair that joins in the first pass, and fillers elsewhere; the table in many rotations of its order
+	ect := enumPart(t, c12Prop, st, "crowded-twins")
+	for nfill := 10; nfill <= 41; nfill += 1 {
+		q := [][]string{{"note", "r"}}
+		base := []Feat{
+			{Key: "repeat_region", Loc: lprg(0, 10, false, true), Quals: q},
+			{Key: "repeat_region", Loc: lprg(10, 20, false, true), Quals: q},
+			{Key: "repeat_region", Loc: lprg(10, 20, true, false), Quals: q},
+			{Key: "repeat_region", Loc: lprg(30, 35, false, true), Quals: q},
+			{Key: "repeat_region", Loc: lprg(35, 40, true, false), Quals: q},
+		}
+		for i := 0; i < nfill; i++ {
+			base = append(base, Feat{Key: "repeat_region", Loc: lrg(50+4*i, 52+4*i), Quals: q})
+		}
+		for rot := 0; rot < len(base); rot += 1 + len(base)/9 {
+			tb := append(append([]Feat{}, base[rot:]...), base[:rot]...)
+			if !ect.try(c12Case{Mode: "table", L: 60 + 4*nfill, Feats: tb}) {
+				return
+			}
+			rev := make([]Feat, len(tb))
+			for i := range tb {
+				rev[len(tb)-1-i] = tb[i]
+			}
+			if !ect.try(c12Case{Mode: "table", L: 60 + 4*nfill, Feats: rev}) {
+				return
+			}
+		}
+	}
+	ect.done(true)
 	// look-alike classes: every ordered pair of look-alike qualifier lists on two abutting fragments (3'-partial meeting
 	// 5'-partial) of one key, and on two abutting source features
 	ela := enumPart(t, c12Prop, st, "look-alike-classes")
